@@ -154,6 +154,14 @@ func ruleBounds(c *Ctx, r *Report) {
 	}
 	base := loadBoundsBaseline(c.VerifDir)
 	used := map[string]bool{}
+	trustedWhole := map[string][]string{}
+	for _, es := range reviewed {
+		for _, e := range es {
+			if e.Verdict == "trusted-input" && len(e.TrustedParams) > 0 {
+				trustedWhole[e.Function] = e.TrustedParams
+			}
+		}
+	}
 	proved, nReviewed, nMoved, nNew := 0, 0, 0, 0
 	// which (kind|nshape) each function still contains, to tell "moved" from "duplicated"
 	has := map[string]bool{}
@@ -334,6 +342,26 @@ func ruleBounds(c *Ctx, r *Report) {
 		// an expression that did not exist on the reviewed tree (new or re-cut code): it must at
 		// least be related to a check that is in force at the site; the residual proof obligation
 		// is listed as information with its sub-goals
+		// a function all of whose inputs were reviewed as trusted (a locally configured key, say):
+		// the review does not depend on how its arithmetic is written
+		if tp := trustedWhole[short(s.f)]; len(tp) > 0 {
+			all := len(s.f.Params) > 0
+			for _, prm := range s.f.Params {
+				in := false
+				for _, t := range tp {
+					if t == prm.Name() {
+						in = true
+					}
+				}
+				if !in {
+					all = false
+				}
+			}
+			if all {
+				r.Note("bounds-trusted-input", key+":"+nshape, pos, "re-cut expression in a function whose only inputs ("+strings.Join(tp, ", ")+") were reviewed as trusted local configuration: "+shape)
+				continue
+			}
+		}
 		if !s.rel && checkedInHelper(s.ins) {
 			// the related check sits in a helper that is handed the container's address and the
 			// index (a grow-to-cover helper): listed like any other unproven new expression
@@ -370,6 +398,9 @@ type reviewedSite struct {
 	Unproven string `json:"unproven"`
 	Verdict  string `json:"verdict"`
 	Reason   string `json:"reason"`
+	// TrustedParams, on a trusted-input entry: the review holds for the function as a whole as
+	// long as these are all the parameters it has (every index in it is computed from them)
+	TrustedParams []string `json:"trusted_params,omitempty"`
 }
 
 // coveredBy: a reviewed entry covers the site when every unproven sub-goal of the site is among
